@@ -143,7 +143,7 @@ def _open_post(ctx):
     doc, kind, keep, dup, raw, rm = ctx.pre
     ok, msg = judge_open(doc, keep, dup, ctx.result, ctx.exc)
     REC.outcome("open", ctx.exc)
-    data_kw = any(tggen.splits_reader(t["name"]) or any(tggen.splits_reader(e[-1]) for e in t["entries"]) for t in doc["tiers"])
+    data_kw = tggen.data_splits_reader({"tiers": [{"t": "I" if t["class"] == "IntervalTier" else "P", "name": t["name"], "entries": t["entries"]} for t in doc["tiers"]]})
     classes = list(_current["classes"] or [])
     names = [t["name"] for t in doc["tiers"]]
     if len(set(names)) != len(names):
